@@ -303,3 +303,25 @@ Proof.
       exists tg, j, bl, k, b, names, sh, idx. repeat split; try assumption; [|lia | apply in_or_app; right; exact Hid].
       replace (j - i)%nat with (S (j - S i))%nat by lia. exact Hn.
 Qed.
+
+(** ** Unconditional uniqueness is false: the witness of finding F8 *)
+Definition f8_sub1 : node := SubRecipe (Ingredient [PStr (s "x"%string)] None) [[PStr (s "a b"%string)]] false.
+Definition f8_sub2 : node := SubRecipe (Ingredient [PStr (s "y"%string)] None) [[PStr (s "a-b"%string)]] false.
+Definition f8_page : page :=
+  [[[f8_sub1; f8_sub2;
+     Step [PStr (s "mix"%string)] [Reference f8_sub1 0 (AProp prop_all); Reference f8_sub2 0 (AProp prop_all)]]]].
+
+Theorem unique_refuted :
+  exists p l hs, Forall (fun blocks => recipe_ok blocks = true) p /\ page_valid p /\
+                 page_ids p = Ok l /\ page_hrefs p = Ok hs /\ ~ NoDup (map fst l) /\
+                 hs = [s "#recipe-a-b"%string; s "#recipe-a-b"%string].
+Proof.
+  exists f8_page. eexists. eexists. split; [|split; [|split; [|split; [|split]]]].
+  - repeat constructor.
+  - repeat constructor; cbn; try (left; reflexivity); try (right; left; reflexivity);
+      eexists; eexists; eexists; (split; [reflexivity | cbn; Lia.lia]).
+  - vm_compute. reflexivity.
+  - vm_compute. reflexivity.
+  - intro H. inversion H as [|x l' Hx _]; subst. apply Hx. left. reflexivity.
+  - reflexivity.
+Qed.
